@@ -141,8 +141,9 @@ def fiber_fs(sk, s, *xs):
     """f + s adds over the whole shape, f * s scales the stored elements"""
     n, shape, op = sk["n"], sk["shape"], sk["op"]
     fc, fv = list(xs[:n]), list(xs[n:2 * n])
-    f = Fiber(fc, fv, shape=shape)
-    f2 = Fiber(fc, fv, shape=shape)
+    ar = tuple(sk["active"]) if sk.get("active") else None      # an active range narrower than the shape must not change "over the whole shape"
+    f = Fiber(fc, fv, shape=shape, active_range=ar)
+    f2 = Fiber(fc, fv, shape=shape, active_range=ar)
     sf = raw(f)
     d0 = _dense(f, shape)
     if op == "add":
@@ -207,6 +208,7 @@ def obligations(tier):
             ps = ["s"] + names("f", n) + names("u", n)
             pre = chain_pre(names("f", n)) + bound_pre(names("f", n), 0, shape)
             obs.append(Ob("fiber/adds/%d/%d" % (n, shape), "fiber_fs", dict(n=n, shape=shape, op="add"), ps, pre))
+            obs.append(Ob("fiber/adds/%d/%d/active12" % (n, shape), "fiber_fs", dict(n=n, shape=shape, op="add", active=[1, 2]), ps, pre))
             for sc in (0, 3):
                 obs.append(Ob("fiber/muls/%d/%d/%d" % (n, shape, sc), "fiber_fs", dict(n=n, shape=shape, op="mul", s=sc), ps, pre))
     return obs
